@@ -34,6 +34,9 @@ def proc_cases(rng, tier):
             out.append([b, op_simple("normalize", b, dim=None)])
             newc = [c[0] + (c[-1] - c[0]) * Fraction(t, 8) for t in range(9)]
             out.append([a, op_simple("interp", a, dim=dim, new_coord=[str(x) for x in newc])])
+            # … and reaching beyond the axis on both sides: the held edge value is that of the trace itself
+            wide = [c[0] - 2, c[0] - Fraction(1, 2)] + newc + [c[-1] + Fraction(1, 3), c[-1] + 5]
+            out.append([a, op_simple("interp", a, dim=dim, new_coord=[str(x) for x in wide])])
             if len(dims) >= 2:
                 out.append([a, op_simple("average", a, axis=dim)])
                 out.append([a, op_simple("average", a, axis=k)])
